@@ -86,6 +86,8 @@ Inductive write_class := CopiedGraph | FreshObject | ValueCopy.
    ValueCopy: the written struct is a local value copy (token.Position, analysis.Diagnostic), not shared memory *)
 Definition write_classes : list (string * write_class) := [
   ("assertion/function/assertiontree/backprop_util.go:blocksAndPreprocessingFromCFG:1:cfg.Block:blocks[i].Succs", CopiedGraph);
+  (* called by blocksAndPreprocessingFromCFG only, on the same block list (repair of finding F71) *)
+  ("assertion/function/assertiontree/backprop_util.go:linkEndlessLoopsToReturn:1:cfg.Block:b.Succs", CopiedGraph);
   ("assertion/function/preprocess/cfg.go:Preprocessor.CFG:1:cfg.CFG:graph.Blocks", CopiedGraph);
   ("assertion/function/preprocess/cfg.go:Preprocessor.canonicalizeConditional:1:cfg.Block:thisBlock.Nodes[len(thisBlock.Nodes)-1]", CopiedGraph);
   ("assertion/function/preprocess/cfg.go:Preprocessor.canonicalizeConditional:2:cfg.Block:thisBlock.Succs[0]", CopiedGraph);
@@ -130,6 +132,7 @@ Definition var_classes : list (string * var_class) := [
   ("accumulation/analyzer.go:Analyzer", AnalyzerDescriptor);
   ("annotation/analyzer.go:Analyzer", AnalyzerDescriptor);
   ("annotation/map.go:EmptyVal", ImmutableAfterInit);
+  ("config/config.go:_templHeaders", ImmutableAfterInit);
   ("annotation/map.go:annotationKeyword", ImmutableAfterInit);
   ("annotation/map.go:paramRegexStr", ImmutableAfterInit);
   ("annotation/map.go:resultRegexStr", ImmutableAfterInit);
